@@ -147,6 +147,67 @@ def run(ctx):
                 H.now += 1
                 H.run(nedits=1)
             H.report_diffs("backup-run")
+    # targeted: a run in which reading a NEW file fails while its bytes are being archived (second pass), with further new files behind it in
+    # the walk; then a clean run.  Whatever the faulted run does, afterwards every non-empty extern record of every backup present must refer
+    # to bytes that an earlier unique record's archive entry really holds (not merely to a manifest line)
+    if not ctx.has_failing_input():
+        from vlib import aux
+        with slevel.Sandbox("c02") as sb:
+            H = runs.History(ctx, sb, rng, "C02", 3, 6, identity_changes=False)
+            H.advance = lambda: None
+            H.now += 3600
+            H.w.populate(nfiles=4)
+            H.now += 61
+            H.run(nedits=0)
+            top = os.path.join(H.w.src, H.w.items[0])
+            # five new files; the victim is the one the walk reaches first (directory order is the file system's), the others lie behind it
+            for k in range(5):
+                H.w.write_file(os.path.join(top, "new-%d.bin" % k), bytes((i * (7 + 2 * k) + k) % 251 for i in range(3000 + 1000 * k)))
+            order = [n for n in os.listdir(top) if n.startswith("new-")]
+            victim = os.path.join(top, order[0])
+            slog = sb.path("sched-c02.log")
+            env = {"LD_PRELOAD": aux.ensure_faketime() + ":" + aux.ensure_sched(), "VERIF_SCHED": os.path.realpath(victim) + "|read,2,fail,0", "VERIF_SCHED_LOG": slog}
+            H.now += 61
+            res = H.w.backup(H.now, env=env)
+            fired = os.path.exists(slog) and "fail" in open(slog).read()
+            ctx.evaluations += 1
+            ctx.count("targeted.read-error-while-archiving" + ("" if fired else ".not-reached"))
+            H.log.append({"run with a read error in the archiving pass of": order[0], "new files behind it": order[1:], "exit": res["exit"], "errors": res["errors"][:2]})
+            H.now += 61
+            res3 = H.w.backup(H.now)
+            ctx.evaluations += 1
+            H.log.append({"clean run": H.name_of_now(), "exit": res3["exit"]})
+            os.environ["VSBH_FULL_DATA"] = "1"
+            try:
+                dec = H.w.decode()
+            finally:
+                os.environ.pop("VSBH_FULL_DATA", None)
+            for g in dec["groups"]:
+                held = set()
+                for e in g["entries"]:
+                    if not runs.recognised(e):
+                        continue
+                    ls = runs.parse_manifest(e)
+                    ents = e.get("archive", {}).get("entries")
+                    if ls is None or ents is None:
+                        H.violation("C02", "after a run whose archiving pass hit a read error, %s/%s does not decode" % (g["name"], e["name"]))
+                        break
+                    byp = {bytes.fromhex(x["path_hex"]): x for x in ents if x.get("type") == "file" and "error" not in x}
+                    here = set()
+                    for l in ls:
+                        x = byp.get(bytes(l["path"]).lstrip(b"/"))
+                        if l["unique"]:
+                            if x is not None and x.get("size") == l["size"] and x.get("sha512") == l["hash"]:
+                                here.add(l["hash"])
+                        elif l["size"] != 0 and l["hash"] not in held and l["hash"] not in here:
+                            H.violation("C02", "after a run whose archiving pass hit a read error (exit %d) and a clean run (exit %d): %s/%s records %r as extern (%d bytes) "
+                                        "but no earlier archive entry of the group holds those bytes" % (res["exit"], res3["exit"], g["name"], e["name"], bytes(l["path"]), l["size"]))
+                            break
+                    held |= here
+                    if ctx.violations:
+                        break
+                if ctx.violations:
+                    break
     # content that changes between the two read passes of a new file, with a copy of the old content archived later in the same run: the
     # hash of the first pass must not become something an extern line can refer to
     if not ctx.has_failing_input():
